@@ -123,7 +123,7 @@ std::string framesToFrameRange(const Frames &frames,
         end = internal::zfill(framesIt[i], zfill);
         buf << start << "-" << end;
 
-        if (step > 1) {
+        if (step > 1 || step < -1) {
             buf << "x" << step;
         }
 
